@@ -29,6 +29,7 @@ pub type W = Arc<Mutex<World>>;
 
 pub struct SimConnect {
     pub w: W,
+    pub linger: bool,
 }
 
 impl Connect for SimConnect {
@@ -37,6 +38,7 @@ impl Connect for SimConnect {
         pg_config: &PgConfig,
     ) -> Pin<Box<dyn Future<Output = Result<(PgClient, JoinHandle<()>), Error>> + Send + '_>> {
         let w = self.w.clone();
+        let linger = self.linger;
         let cfg = pg_config.clone();
         Box::pin(async move {
             let (near, far) = tokio::io::duplex(64 * 1024);
@@ -50,6 +52,9 @@ impl Connect for SimConnect {
                 // the Connection (and with it the request receiver) is gone now:
                 // `Client::is_closed()` reports true from here on
                 w2.lock().unwrap().conn_task_done(id, r.is_err());
+                if linger {
+                    std::future::pending::<()>().await;
+                }
             });
             Ok((client, conn_task))
         })
